@@ -47,10 +47,18 @@ theorem C01_tag_member (env : Env) (as : List String) (ks : List Node) (st : St)
     transformTag env (.mk .jsxMember as ks) st = (jsxMemberToExpr (.mk .jsxMember as ks), st) := by
   simp [transformTag]
 
-theorem C01_tag_member_shape (as oas pas : List String) (n b : String) (oks pks : List Node) (hn : n ≠ "this") :
-    jsxMemberToExpr (.mk .jsxMember as [.mk .ident (n :: b :: oas) oks, .mk .ident pas pks])
-      = .mk .member [] [.mk .ident (n :: b :: oas) [], .mk .ident pas pks] := by
-  simp [jsxMemberToExpr, hn]
+theorem C01_tag_member_shape (as oas pas : List String) (n b pn : String) (oks pks : List Node) (hn : n ≠ "this")
+    (hp : isValidPropIdent pn = true) :
+    jsxMemberToExpr (.mk .jsxMember as [.mk .ident (n :: b :: oas) oks, .mk .ident (pn :: pas) pks])
+      = .mk .member [] [.mk .ident (n :: b :: oas) [], .mk .ident (pn :: pas) pks] := by
+  simp [jsxMemberToExpr, hn, hp]
+
+/-- a property that is not an identifier name (`<a.b-c>`) is accessed as `a["b-c"]` — the same member, printable -/
+theorem C01_tag_member_hyphen (as oas pas : List String) (n b pn : String) (oks pks : List Node) (hn : n ≠ "this")
+    (hp : isValidPropIdent pn = false) :
+    jsxMemberToExpr (.mk .jsxMember as [.mk .ident (n :: b :: oas) oks, .mk .ident (pn :: pas) pks])
+      = .mk .member [] [.mk .ident (n :: b :: oas) [], nComputed (nStr pn)] := by
+  simp [jsxMemberToExpr, hn, hp]
 
 /-! ### attribute values -/
 
